@@ -586,6 +586,7 @@ func runCLI(prop, tier string) int {
 	seed := evid.Seed()
 	hz := currentHazards()
 	var scens []*scen
+	goodByTree := map[*gen.Tree][]string{}
 	profs := []gen.Profile{gen.ProfGeneral, gen.ProfImports, gen.ProfNaming}
 	for i := 0; i < ntrees; i++ {
 		t := gen.NewTree(seed*100019+int64(i), profs[i%len(profs)], hz)
@@ -613,6 +614,7 @@ func runCLI(prop, tier string) int {
 			continue
 		}
 		sortStrings(good)
+		goodByTree[t] = good
 		rng := rand.New(rand.NewSource(seed*31 + int64(i)))
 		scens = append(scens, buildScenarios(t, good, rng, tier)...)
 	}
@@ -679,6 +681,9 @@ func runCLI(prop, tier string) int {
 	})
 	if prop == "C19" {
 		runC19Corpus(run, moq, work, tier)
+	}
+	if prop == "C17" {
+		runC17Library(run, moq, work, goodByTree)
 	}
 	for id, what := range knownHits {
 		title := ""
@@ -786,6 +791,107 @@ func runC19Corpus(run *evid.Run, moq *runner.Moq, work, tier string) {
 		o := &cliOutcome{s: &scen{family: "known"}, res: res}
 		if v := oracle19(o); len(v) > 0 {
 			run.Known(k.ID, k.Title+" :: "+strings.Join(v, " | "))
+		}
+	}
+}
+
+// runC17Library exercises the writer contract of the library entry point in a child process: a counting writer
+// must see exactly one Write with the complete file on success and no Write at all when the request fails; a
+// writer that fails after b bytes must make Mock return an error after that single Write.
+func runC17Library(run *evid.Run, mq *runner.Moq, work string, goodByTree map[*gen.Tree][]string) {
+	var jobs []libJob
+	type meta struct {
+		t     *gen.Tree
+		kind  string
+		ref   []byte
+		names []string
+	}
+	var metas []meta
+	n := 0
+	for t, good := range goodByTree {
+		root := filepath.Join(work, fmt.Sprintf("lib17_%d", n))
+		n++
+		if err := copyTree(t, root); err != nil {
+			continue
+		}
+		dir := filepath.Join(root, t.SrcDir)
+		g0 := good[0]
+		ref := mq.Run(dir, []string{".", g0}, runner.Opts{})
+		if ref.Exit != 0 {
+			continue
+		}
+		add := func(kind string, names []string, writer, fmtr string) {
+			jobs = append(jobs, libJob{Dir: dir, SrcDir: ".", Names: names, Repeat: 1, Writer: writer, Fmt: fmtr})
+			metas = append(metas, meta{t, kind, ref.Stdout, names})
+		}
+		add("success-count", []string{g0}, "count", "")
+		for _, b := range []int{0, 1, len(ref.Stdout) / 2, len(ref.Stdout) - 1} {
+			add(fmt.Sprintf("writer-fails-after-%d", b), []string{g0}, fmt.Sprintf("fail:%d", b), "")
+		}
+		add("fail-unknown-last", []string{g0, "NoSuchType"}, "count", "")
+		add("fail-unknown-first", []string{"NoSuchType", g0}, "count", "")
+		add("fail-not-interface-middle", []string{g0, t.Locals.Struct, g0 + ":Other"}, "count", "")
+		add("fail-var", []string{g0, "GlobalVar"}, "count", "")
+		add("fail-unformattable", []string{g0 + ":not-an-identifier"}, "count", "")
+		add("fail-unformattable-goimports", []string{g0 + ":9bad"}, "count", "goimports")
+		add("fail-no-names", nil, "count", "")
+	}
+	if len(jobs) == 0 {
+		return
+	}
+	res, err := runLibDriver(work, "lib17.json", jobs)
+	if err != nil {
+		run.Inconc("library driver: " + err.Error())
+		return
+	}
+	for i, r := range res {
+		m := metas[i]
+		run.Eval("library|" + m.kind)
+		run.Add("library_writer_executions", 1)
+		var v []string
+		if r.Panic != "" {
+			v = append(v, "library entry point panicked: "+r.Panic)
+		}
+		calls := 0
+		if len(r.WriteCalls) > 0 {
+			calls = r.WriteCalls[0]
+		}
+		errStr := ""
+		if len(r.Errs) > 0 {
+			errStr = r.Errs[0]
+		}
+		switch {
+		case m.kind == "success-count":
+			if errStr != "" {
+				v = append(v, "successful request returned error "+errStr)
+			}
+			if calls != 1 || len(r.WriteLens[0]) != 1 || r.WriteLens[0][0] != len(m.ref) {
+				v = append(v, fmt.Sprintf("the writer saw %d Write calls %v, want exactly one with the complete %d-byte file", calls, r.WriteLens[0], len(m.ref)))
+			}
+			if len(r.Outputs) > 0 && r.Outputs[0] != string(m.ref) {
+				v = append(v, "bytes written to the writer differ from the CLI output of the same request")
+			}
+		case strings.HasPrefix(m.kind, "writer-fails-after"):
+			if errStr == "" {
+				v = append(v, "the writer failed but Mock returned no error")
+			}
+			if calls != 1 || r.WriteLens[0][0] != len(m.ref) {
+				v = append(v, fmt.Sprintf("a failing writer saw %d Write calls %v, want one call with the complete file", calls, r.WriteLens[0]))
+			}
+		default:
+			if errStr == "" {
+				v = append(v, "a request that must fail returned no error")
+			}
+			if calls != 0 {
+				v = append(v, fmt.Sprintf("a failing request (%s) wrote to the writer: %d Write calls, %d bytes", m.kind, calls, len(r.Outputs[0])))
+			}
+		}
+		if len(v) > 0 {
+			files := map[string]string{"names.txt": strings.Join(m.names, " "), "written.txt": strings.Join(r.Outputs, "\n----\n")}
+			for rel, content := range m.t.Files {
+				files["tree/"+rel] = content
+			}
+			run.Violation(fmt.Sprintf("library %s seed=%d names=%v :: %s", m.kind, m.t.Seed, m.names, strings.Join(v, " | ")), files)
 		}
 	}
 }
